@@ -985,6 +985,87 @@ theorem relQuery_eq_rfc (honour : Bool) (b : URL) (base r : Ref) (hr : RelRef r)
   · simp only [h1, if_false]
     exact optQuery_roundtrip r.query hcq
 
+/-! ### Appendix B parse of a reference text = the model's cuts -/
+
+theorem cutAt_hash (t : Str) :
+    (cutAt '#' t).1 = t.takeWhile (notIn ['#']) ∧
+    (cutAt '#' t).2 = parseFragmentPart (t.dropWhile (notIn ['#'])) := by
+  induction t with
+  | nil => simp [cutAt, parseFragmentPart]
+  | cons x xs ih =>
+    by_cases h : x = '#'
+    · subst h; simp [cutAt, notIn, parseFragmentPart]
+    · have hn : notIn ['#'] x = true := by simp [notIn, h]
+      simp [cutAt, h, hn, ih.1, ih.2]
+
+/-- path / query / fragment of Appendix B = the cuts of the model, for every text -/
+theorem pqf_eq (t : Str) :
+    t.takeWhile (notIn ['?', '#']) = (cutAt '?' (cutAt '#' t).1).1 ∧
+    (parseQueryPart (t.dropWhile (notIn ['?', '#']))).1 = (cutAt '?' (cutAt '#' t).1).2 ∧
+    parseFragmentPart (parseQueryPart (t.dropWhile (notIn ['?', '#']))).2 = (cutAt '#' t).2 := by
+  induction t with
+  | nil => simp [cutAt, parseQueryPart, parseFragmentPart]
+  | cons x xs ih =>
+    by_cases h1 : x = '#'
+    · subst h1; simp [cutAt, notIn, parseQueryPart, parseFragmentPart]
+    · by_cases h2 : x = '?'
+      · subst h2
+        have := cutAt_hash xs
+        simp [cutAt, notIn, parseQueryPart, this.1, this.2]
+      · have hn : notIn ['?', '#'] x = true := by simp [notIn, h1, h2]
+        simp [cutAt, h1, h2, hn, ih.1, ih.2.1, ih.2.2]
+
+theorem parseScheme_none (t : Str) (h : (parseScheme t).1 = none) : (parseScheme t).2 = t := by
+  unfold parseScheme at h ⊢
+  simp only at h ⊢
+  split at h
+  · by_cases hp : List.takeWhile (notIn [':', '/', '?', '#']) t ≠ []
+    · simp [hp] at h
+    · simp [hp]
+  · rfl
+
+theorem parseAuthority_none (t : Str) (h : (parseAuthority t).1 = none) : (parseAuthority t).2 = t := by
+  unfold parseAuthority at h ⊢
+  split at h <;> simp_all
+
+/-- for a text that Appendix B parses without scheme and without authority, the RFC parse IS the model's -/
+theorem rfcParse_rel (t : Str) (hs : (rfcParse t).scheme = none) (ha : (rfcParse t).authority = none) :
+    rfcParse t = refOfText t := by
+  have h1 : (parseScheme t).1 = none := hs
+  have e1 := parseScheme_none t h1
+  have h2 : (parseAuthority (parseScheme t).2).1 = none := ha
+  have e2 := parseAuthority_none _ h2
+  have := pqf_eq t
+  unfold rfcParse refOfText
+  simp only [Ref.mk.injEq]
+  rw [e1] at h2 e2
+  refine ⟨h1, ?_, ?_, ?_, ?_⟩
+  · rw [e1]; exact h2
+  · rw [e1, e2]; exact this.1
+  · rw [e1, e2]; exact this.2.1
+  · rw [e1, e2]; exact this.2.2
+
+/-- a cut loses nothing: the two pieces and the separator give the text back -/
+theorem cutAt_join (c : Char) (t : Str) :
+    (cutAt c t).1 ++ (match (cutAt c t).2 with | none => [] | some r => c :: r) = t := by
+  induction t with
+  | nil => simp [cutAt]
+  | cons x xs ih =>
+    by_cases h : x = c
+    · subst h; simp [cutAt]
+    · simp only [cutAt, h, if_false, List.cons_append]
+      rw [ih]
+
+/-- the model's components of a reference text recompose (RFC 3986 5.3) to that text -/
+theorem recompose_refOfText (t : Str) : recompose (refOfText t) = t := by
+  unfold recompose refOfText
+  simp only [List.nil_append]
+  have h1 := cutAt_join '#' t
+  have h2 := cutAt_join '?' (cutAt '#' t).1
+  rw [List.append_assoc]
+  conv => rhs; rw [← h1, ← h2]
+  cases (cutAt '?' (cutAt '#' t).1).2 <;> cases (cutAt '#' t).2 <;> simp
+
 /-! ### the fuel of the RFC loop does not matter once it covers the input -/
 
 theorem dropWhile_length_le (l : Str) : (l.dropWhile ns).length ≤ l.length := by
